@@ -289,6 +289,20 @@ def cases(ctx):
         if len(ops_of(t)) > 14:
             continue
         yield "and-or", t, None
+    # consecutive constraints that differ only in the letter case of their names (a history on the queries)
+    def rename(n, mp):
+        d, l, r = n
+        if d[0] == "s":
+            return ((d[0], mp.get(d[1], d[1])), None, None)
+        return (d, rename(l, mp) if l is not None else None, rename(r, mp) if r is not None else None)
+    W, N, Rr = T("Wifi"), T("Net"), T("radio")
+    shapes = [OP("IMPLIES", W, OP("AND", N, Rr)), OP("OR", OP("AND", W, N), Rr), OP("REQUIRES", W, N),
+              OP("EXCLUDES", N, Rr), OP("IMPLIES", OP("OR", W, N), OP("AND", Rr, OP("NOT", W))),
+              OP("OR", OP("NOT", W), N), OP("AND", OP("IMPLIES", W, N), OP("IMPLIES", N, Rr))]
+    for sh in shapes:
+        yield "case-twins", sh, None
+        yield "case-twins", rename(sh, {"Wifi": "wifi", "Net": "net", "radio": "Radio"}), None
+        yield "case-twins", rename(sh, {"Wifi": "WIFI", "Net": "NET", "radio": "RADIO"}), None
     # arithmetic / aggregate / odd terms for the kind predicates
     for i in range(200 if tier == "quick" else 2000):
         yield "arith", rand_arith(g), None
